@@ -44,6 +44,10 @@ func instrumentAll(h *Harness, workDir, overlayPath string, env []string) (map[s
 				return nil, err
 			}
 			_ = counts
+			for _, w := range instrument.Warnings {
+				fmt.Fprintln(os.Stderr, "NOTE: instrumenter:", w)
+			}
+			instrument.Warnings = nil
 			out[filepath.Join(repoDir, is.File)] = dst
 		}
 	}
